@@ -114,7 +114,24 @@ func (w *World) decode(dst *roaring.Bitmap, data []byte, e int, seed uint64, pro
 		err = dst.UnmarshalBinary(data)
 		p = -1
 	case 4:
-		p, err = dst.FromBase64(base64.StdEncoding.EncodeToString(data))
+		txt := base64.StdEncoding.EncodeToString(data)
+		if prop == "C10" && seed>>9&3 == 1 && len(txt) > 0 {
+			// damage at the text level as well: an illegal character, a cut inside a quartet
+			b := []byte(txt)
+			switch seed >> 11 & 3 {
+			case 0:
+				b[int(seed>>13)%len(b)] = '!'
+			case 1:
+				b = b[:int(seed>>13)%len(b)]
+			case 2:
+				b[int(seed>>13)%len(b)] = '='
+			default:
+				b = append(b, 'A')
+			}
+			txt = string(b)
+			w.St.Faults["base64-text-damaged"]++
+		}
+		p, err = dst.FromBase64(txt)
 	case 5:
 		var reg *simio.Region
 		ri, reg = w.addRegion(data, "frozen", prop, 32)
